@@ -47,6 +47,7 @@ def r12_1(ctx):
     fi = ik._integrate(model)
     rep.analysed(fi)
     out_atom = ("s", "out_t")
+    loop_var = ast.unparse(ik.loop_structure(model)[2].target)
     for adaptive in (False, True):
         for p in _paths(ctx, adaptive):
             base = f"{fi.key}::R12.1::{'adaptive' if adaptive else 'fixed'}::{p.label()}"
@@ -57,6 +58,15 @@ def r12_1(ctx):
                           f"`{ast.unparse(node)}`: the output time out_t flows into the step's {bad}: the solver steps "
                           f"to (or depending on) the requested output times instead of staying on the dt grid",
                           "independent of out_t")
+            # implicit flow: a branch inside the stepping loop whose test reads the output time decides what is stepped
+            for text, d in p.decisions:
+                try:
+                    names = {n.id for n in ast.walk(ast.parse(text, mode="eval")) if isinstance(n, ast.Name)}
+                except SyntaxError:
+                    names = set()
+                rep.check(loop_var not in names, "R12.1", astq.loc(fi), f"{base}::branch::{text}",
+                          f"a branch inside the stepping loop tests `{text}`, which reads the output time `{loop_var}`: the "
+                          f"steps taken depend on the requested output times (implicit flow)", "branch independent of out_t")
             for name in ik.CARRIED:
                 v = p.env.get(name)
                 rep.check(not _has_atom(v, out_atom), "R12.1", astq.loc(fi), f"{base}::carried::{name}",
@@ -112,6 +122,7 @@ def r12_2(ctx):
     fi, prologue, for_node, while_node, tail, epilogue = ik.loop_structure(model)
     ref_end = nf.fn("min", *sorted([ik.H("curr_t") + ik.H("step_size"), nf.sym("ts[-1]", True)],
                                    key=lambda v: repr(Rat.lift(v).key())))
+    t_end = nf.sym("ts[-1]", True)
     for adaptive in (False, True):
         for p in _paths(ctx, adaptive):
             base = f"{fi.key}::R12.2::{'adaptive' if adaptive else 'fixed'}::{p.label()}"
@@ -123,17 +134,24 @@ def r12_2(ctx):
             # first-level steps must end at ref_end or at the midpoint of [curr_t, ref_end]
             ends = [tb for ta, tb, y, e, n in p.steps]
             full = [tb for ta, tb, y, e, n in p.steps if nf.equal(tb, ref_end)]
-            rep.check(bool(full), "R12.2", astq.loc(fi, p.steps[0][4]), f"{base}::step-end",
-                      f"no step of the iteration ends at min(curr_t + step_size, ts[-1]) = `{ref_end}`; step ends are "
-                      f"{[str(x) for x in ends]}: the grid is not ts[0] + k dt clipped to ts[-1]",
+            # the end of the horizon itself is the other admissible step end (a remainder of rounding-error size merged
+            # into the last step); *when* the code may choose it is pinned down by the exact-arithmetic models of
+            # R12.7 / R15.3, and R12.1 keeps the output times out of the decision
+            snapped = [tb for ta, tb, y, e, n in p.steps if nf.equal(tb, t_end) and nf.equal(ta, ik.H("curr_t"))]
+            trial_end = ref_end if full else (t_end if snapped else None)
+            rep.check(trial_end is not None, "R12.2", astq.loc(fi, p.steps[0][4]), f"{base}::step-end",
+                      f"no step of the iteration ends at min(curr_t + step_size, ts[-1]) = `{ref_end}` (or at ts[-1] "
+                      f"itself); step ends are {[str(x) for x in ends]}: the grid is not ts[0] + k dt clipped to ts[-1]",
                       "trial interval ends at min(curr_t + step_size, ts[-1])")
+            if trial_end is None:
+                continue
             if not adaptive:
                 ss = p.env["step_size"]
                 rep.check(nf.equal(ss, ik.H("step_size")), "R12.2", astq.loc(fi), f"{base}::step-size-const",
                           f"the fixed-step arm changes step_size to `{ss}`", "step_size unchanged")
                 ct = p.env["curr_t"]
-                rep.check(nf.equal(ct, ref_end), "R12.2", astq.loc(fi), f"{base}::advance",
-                          f"the fixed-step arm advances curr_t to `{ct}`, not to min(curr_t + step_size, ts[-1])",
+                rep.check(nf.equal(ct, trial_end), "R12.2", astq.loc(fi), f"{base}::advance",
+                          f"the fixed-step arm advances curr_t to `{ct}`, not to the end `{trial_end}` of the step it took",
                           "curr_t advances to the step end")
     # the stepping loop's continuation test
     test = while_node.test
@@ -286,3 +304,5 @@ def run(ctx):
     ctx.guard(r12_4)
     ctx.guard(r12_5)
     ctx.guard(ik.rule_tiling, "R12.6")
+    # "last step clipped to ts[-1]": a genuine remainder is a step of its own (exact-arithmetic model of the last steps)
+    ctx.guard(ik.rule_last_steps, "R12.7", False)
